@@ -17,6 +17,7 @@ import (
 	codectypes "github.com/cosmos/cosmos-sdk/codec/types"
 	sdk "github.com/cosmos/cosmos-sdk/types"
 	"github.com/ethereum/go-ethereum/crypto"
+	evmtypes "github.com/palomachain/paloma/v2/x/evm/types"
 	skykeeper "github.com/palomachain/paloma/v2/x/skyway/keeper"
 	skytypes "github.com/palomachain/paloma/v2/x/skyway/types"
 )
@@ -301,6 +302,9 @@ func TestBridge(t *testing.T) {
 	opsPerCase := int(envInt("VERIF_OPS", 40))
 	for c := 0; c < r.N; c++ {
 		runBridgeCase(t, r, prop, opsPerCase)
+	}
+	if prop == "C01" {
+		brTwoChainScenario(t, r, 1+r.N/6, 40)
 	}
 }
 
@@ -759,4 +763,244 @@ func (b *brHarness) evidenceOp() {
 		r.Stat("evidence.forged." + res)
 	}
 	b.emit(op, res+" jailed="+jailedAfter)
+}
+
+// ---------------------------------------------------------------------------
+// Two remote chains sharing one token contract address (monitors only)
+// ---------------------------------------------------------------------------
+//
+// The pool is keyed by token contract, batches by (chain, contract): when the same contract address is
+// registered on two chains, transfers towards both chains sit under one pool key. The Lean bridge model
+// has no chain dimension (every transition it proves things about is per token), so this scenario is
+// not piped through the driver; the property's own statement is evaluated on the implementation after
+// every step instead: each accepted transfer is in exactly one place, the escrow equals the sum of
+// amount plus tax over all pending transfers, the supply moves only by executed batches, and a step
+// that reports failure changes nothing.
+func brTwoChainScenario(t *testing.T, r *Rec, rounds, nops int) {
+	const chainB, compassB = "chain-b", "compass-b"
+	for round := 0; round < rounds; round++ {
+		e := newSkyEnv(t, 3)
+		shared := "0x1000000000000000000000000000000000000001"
+		e.addToken("utok1", shared)
+		e.addToken("utok2", "0x1000000000000000000000000000000000000002")
+		if err := e.in.EvmKeeper.AddSupportForNewChain(e.ctx, chainB, 2, 123, "0x1234", big.NewInt(55)); err != nil {
+			t.Fatal(err)
+		}
+		if err := e.in.EvmKeeper.ActivateChainReferenceID(e.ctx, chainB, &evmtypes.SmartContract{Id: 1}, "0x1234567890123456789012345678901234567891", []byte(compassB)); err != nil {
+			t.Fatal(err)
+		}
+		// the very same contract address on the second chain
+		if err := e.gov(e.ctx, &skytypes.SetERC20ToDenomProposal{Title: "t", Description: "d", ChainReferenceId: chainB, Erc20: shared, Denom: "utok1"}); err != nil {
+			t.Fatal(err)
+		}
+		chains := []string{skyChain, chainB}
+		compass := map[string]string{skyChain: skyCompass, chainB: compassB}
+		valNonce := map[string]uint64{}
+		var hist []string
+		type acc struct {
+			sender int
+			chain  string
+			cost   *big.Int
+			tok    int
+		}
+		accepted := map[int]acc{}
+		gone := map[int]string{} // refunded / burned
+		minted := new(big.Int)   // funding, per denom utok1 only (utok2 is a bystander)
+		burned := new(big.Int)
+		for u := 1; u <= 3; u++ {
+			amt := sdkmath.NewInt(int64(2000 + r.Rng.Intn(5000)))
+			e.fund(u, 1, amt)
+			minted.Add(minted, amt.BigInt())
+			e.fund(u, 2, sdkmath.NewInt(1000))
+		}
+		if r.Rng.Intn(2) == 0 {
+			if err := e.gov(e.ctx, &skytypes.SetBridgeTaxProposal{Title: "t", Description: "d", Token: "utok1", Rate: "1/10"}); err != nil {
+				t.Fatal(err)
+			}
+			hist = append(hist, "settax utok1 1/10")
+		}
+		snapshot := func() string {
+			var parts []string
+			for _, x := range e.poolTxs() {
+				parts = append(parts, fmt.Sprintf("p%d", x.id))
+			}
+			for _, bb := range e.batchList() {
+				ids := []string{}
+				for _, x := range bb.txs {
+					ids = append(ids, fmt.Sprint(x.id))
+				}
+				parts = append(parts, fmt.Sprintf("b%s/%d/%d[%s]", bb.raw.ChainReferenceID, bb.tok, bb.nonce, strings.Join(ids, ",")))
+			}
+			sort.Strings(parts)
+			return strings.Join(parts, " ") + fmt.Sprintf(" escrow=%s/%s supply=%s", e.escrow(1), e.escrow(2), e.in.BankKeeper.GetSupply(e.ctx, "utok1").Amount)
+		}
+		check := func(op string) {
+			places := map[int][]string{}
+			pending := new(big.Int)
+			for _, x := range e.poolTxs() {
+				places[x.id] = append(places[x.id], "pool")
+				if x.tok == 1 {
+					a, _ := new(big.Int).SetString(x.amount, 10)
+					tx, _ := new(big.Int).SetString(x.tax, 10)
+					pending.Add(pending, a.Add(a, tx))
+				}
+			}
+			for _, bb := range e.batchList() {
+				for _, x := range bb.txs {
+					places[x.id] = append(places[x.id], fmt.Sprintf("batch %s/%d", bb.raw.ChainReferenceID, bb.nonce))
+					if bb.tok == 1 {
+						a, _ := new(big.Int).SetString(x.amount, 10)
+						tx, _ := new(big.Int).SetString(x.tax, 10)
+						pending.Add(pending, a.Add(a, tx))
+					}
+				}
+			}
+			in := map[string]interface{}{"scenario": "two chains, one contract address", "history": append(append([]string{}, hist...), op)}
+			for id := range accepted {
+				want := 1
+				if gone[id] != "" {
+					want = 0
+				}
+				if len(places[id]) != want {
+					r.Hit("exactly_one_place", fmt.Sprintf("transfer %d (to %s, %s) is in %v after `%s`", id, accepted[id].chain, map[bool]string{true: "pending", false: gone[id]}[gone[id] == ""], places[id], op), in)
+				}
+			}
+			if esc := e.escrow(1); esc.BigInt().Cmp(pending) != 0 {
+				r.Hit("escrow_eq_pending", fmt.Sprintf("escrow %s but pending transfers total %s after `%s`", esc, pending, op), in)
+			}
+			wantSupply := new(big.Int).Sub(minted, burned)
+			if sup := e.in.BankKeeper.GetSupply(e.ctx, "utok1").Amount; sup.BigInt().Cmp(wantSupply) != 0 {
+				r.Hit("supply_delta", fmt.Sprintf("supply %s, expected %s (funded %s, executed batches %s) after `%s`", sup, wantSupply, minted, burned, op), in)
+			}
+		}
+		step := func(op string, fn func() (ok bool)) {
+			before := snapshot()
+			ok := fn()
+			if !ok && snapshot() != before {
+				r.Hit("failed_op_is_noop", fmt.Sprintf("failed `%s` changed state: %s -> %s", op, before, snapshot()), map[string]interface{}{"scenario": "two chains, one contract address", "history": append(append([]string{}, hist...), op)})
+			}
+			res := "rejected"
+			if ok {
+				res = "ok"
+			}
+			check(op)
+			hist = append(hist, op+" => "+res)
+			r.Stat("twochain." + strings.SplitN(op, " ", 2)[0] + "." + res)
+		}
+		for i := 0; i < nops; i++ {
+			switch x := r.Rng.Intn(100); {
+			case x < 40: // send towards either chain
+				u, ch := 1+r.Rng.Intn(3), chains[r.Rng.Intn(2)]
+				amt := sdkmath.NewInt(int64(1 + r.Rng.Intn(400)))
+				known := map[int]bool{}
+				for _, p := range e.poolTxs() {
+					known[p.id] = true
+				}
+				bal := e.in.BankKeeper.GetBalance(e.ctx, e.users[u-1], "utok1").Amount
+				step(fmt.Sprintf("send %d %s %s", u, ch, amt), func() bool {
+					return e.runMsg(func(ctx sdk.Context) error {
+						_, err := e.ms.SendToRemote(ctx, &skytypes.MsgSendToRemote{EthDest: "0x00000000000000000000000000000000000000aa", Amount: sdk.Coin{Denom: "utok1", Amount: amt}, ChainReferenceId: ch, Metadata: e.meta(e.users[u-1])})
+						return err
+					}) == "ok"
+				})
+				for _, p := range e.poolTxs() {
+					if !known[p.id] {
+						if _, dup := accepted[p.id]; !dup {
+							accepted[p.id] = acc{u, ch, bal.Sub(e.in.BankKeeper.GetBalance(e.ctx, e.users[u-1], "utok1").Amount).BigInt(), 1}
+						}
+					}
+				}
+			case x < 55: // cancel
+				pool := e.poolTxs()
+				if len(pool) == 0 {
+					continue
+				}
+				p := pool[r.Rng.Intn(len(pool))]
+				bal := e.in.BankKeeper.GetBalance(e.ctx, e.users[p.sender-1], "utok1").Amount
+				op := fmt.Sprintf("cancel %d %d", p.sender, p.id)
+				okd := false
+				step(op, func() bool {
+					okd = e.runMsg(func(ctx sdk.Context) error {
+						_, err := e.ms.CancelSendToRemote(ctx, &skytypes.MsgCancelSendToRemote{TransactionId: uint64(p.id), Metadata: e.meta(e.users[p.sender-1])})
+						return err
+					}) == "ok"
+					if okd {
+						gone[p.id] = "refunded"
+					}
+					return okd
+				})
+				if okd && p.tok == 1 {
+					got := e.in.BankKeeper.GetBalance(e.ctx, e.users[p.sender-1], "utok1").Amount.Sub(bal)
+					if a, ok := accepted[p.id]; ok && got.BigInt().Cmp(a.cost) != 0 {
+						r.Hit("refund_in_full", fmt.Sprintf("cancel of %d refunded %s, the send had cost %s", p.id, got, a.cost), map[string]interface{}{"history": hist})
+					}
+				}
+				if !okd {
+					// a transfer that is waiting in the pool can always be taken back by its sender
+					r.Hit("refund_in_full", fmt.Sprintf("transfer %d waits in the pool but its sender's cancellation was refused", p.id), map[string]interface{}{"scenario": "two chains, one contract address", "history": hist})
+				}
+			case x < 75: // direct build for one (chain, contract)
+				ch := chains[r.Rng.Intn(2)]
+				contract, _ := skytypes.NewEthAddress(shared)
+				e.setBlock(e.height+1, e.now.Add(2*time.Second))
+				step(fmt.Sprintf("build %s", ch), func() bool {
+					_, err := e.k.BuildOutgoingTXBatch(e.ctx, ch, *contract, skykeeper.OutgoingTxBatchSize)
+					return err == nil
+				})
+			case x < 88: // end of block housekeeping (builds for every registered (chain, token); timeouts)
+				h := e.height + 1 + int64(r.Rng.Intn(3))
+				adv := 2 * time.Second
+				if r.Rng.Intn(4) == 0 {
+					adv = time.Duration(20+r.Rng.Intn(40)) * time.Minute // lets batches time out
+				}
+				e.setBlock(h, e.now.Add(adv))
+				step(fmt.Sprintf("endblock %d +%s", h, adv), func() bool { e.endBlock(); return true })
+			default: // an open batch of either chain is reported executed by everyone
+				bs := e.batchList()
+				if len(bs) == 0 {
+					continue
+				}
+				bb := bs[r.Rng.Intn(len(bs))]
+				ch := bb.raw.ChainReferenceID
+				n := valNonce[ch] + 1
+				e.ethHeight += uint64(1 + r.Rng.Intn(20))
+				ethH := e.ethHeight
+				okc := e.voteAll(func(o sdk.AccAddress) sdk.Msg {
+					return &skytypes.MsgBatchSendToRemoteClaim{EventNonce: n, EthBlockHeight: ethH, BatchNonce: uint64(bb.nonce), TokenContract: bb.raw.TokenContract.GetAddress().Hex(), ChainReferenceId: ch, Orchestrator: o.String(), Metadata: e.meta(o), SkywayNonce: n, CompassId: compass[ch]}
+				})
+				if okc != len(skykeeper.ValAddrs) {
+					if okc != 0 {
+						t.Fatalf("two-chain scenario: partial vote %d", okc)
+					}
+					continue
+				}
+				valNonce[ch] = n
+				worth := new(big.Int)
+				ids := []int{}
+				for _, x := range bb.txs {
+					a, _ := new(big.Int).SetString(x.amount, 10)
+					tx, _ := new(big.Int).SetString(x.tax, 10)
+					worth.Add(worth, a.Add(a, tx))
+					ids = append(ids, x.id)
+				}
+				e.setBlock(e.height+1, e.now.Add(2*time.Second))
+				step(fmt.Sprintf("exec %s batch %d", ch, bb.nonce), func() bool {
+					e.endBlock()
+					for _, still := range e.batchList() {
+						if still.raw.ChainReferenceID == ch && still.nonce == bb.nonce && still.tok == bb.tok {
+							return true // not observed (e.g. stale compass): nothing happened
+						}
+					}
+					if bb.tok == 1 {
+						burned.Add(burned, worth)
+					}
+					for _, id := range ids {
+						gone[id] = "burned"
+					}
+					return true
+				})
+			}
+		}
+		r.Case("twochain|"+strings.Join(hist, "|"), len(accepted) > 0)
+	}
 }
